@@ -164,6 +164,12 @@ def build_ops(seed, tier, d, drv):
         if "ok" in pmu:
             ops.append({"id": "union_" + tag, "kind": "parse", "bytes": mu["ok"]})
             expect["union_" + tag] = json.dumps(suitio.dec_obj(pmu["ok"]), sort_keys=False)
+    # inputs at the border of what the parser accepts (nesting near the interpreter's recursion limit): accepted or refused, but the same in every
+    # history - a limit moved by an earlier operation would show here (C18-s)
+    from . import c17 as _c17
+    for lv in (120, 170, 250, 320):
+        ops.append({"id": f"deepparse{lv}", "kind": "parse", "bytes": _c17.nested_envelope(lv, "run").hex()})
+        expect[f"deepparse{lv}"] = ("fresh",)
     # two descriptions that differ only in the directory of the referenced files (same names, different contents)
     for tag, salt in (("A", 1), ("B", 2), ("C", 3)):
         dd = os.path.join(d, "fixed" + tag)
